@@ -349,6 +349,49 @@ impl<K: KeyT, V: ValT> World<K, V> {
                 let v = visits.into_inner().unwrap();
                 Some(self.finish(op, &meta, res, vec![("visits", Value::Array(v)), ("par", json!(1))]))
             }
+            "SerdeBig" => {
+                // a large collection deserialised from a source that reports its exact length (size-hint dependent
+                // pre-sizing paths; serde's `cautious` clamp is 4096 elements): n pairs straight into slot d
+                let d = u(op, "d") as usize;
+                let n = u(op, "n");
+                let set = op.get("ty").and_then(|x| x.as_str()) == Some("set");
+                DEFAULT_HM.store(ou(op, "hm").unwrap_or(0) as usize, std::sync::atomic::Ordering::Relaxed);
+                let old = self.slots[d].take();
+                drop(old);
+                let meta = if set {
+                    let nums: Vec<u32> = (1..=n).collect();
+                    let (r, meta) = measure(|| {
+                        let de = serde::de::value::SeqDeserializer::<_, serde::de::value::Error>::new(nums.into_iter());
+                        <S<K> as serde::Deserialize>::deserialize(de).unwrap()
+                    });
+                    if let Some(m) = r {
+                        self.slots[d] = Some(Slot::Set(m));
+                    }
+                    meta
+                } else {
+                    let pairs: Vec<(u32, u32)> = (1..=n).map(|k| (k, k % 10)).collect();
+                    let (r, meta) = measure(|| {
+                        let de = serde::de::value::MapDeserializer::<_, serde::de::value::Error>::new(pairs.into_iter());
+                        <M<K, V> as serde::Deserialize>::deserialize(de).unwrap()
+                    });
+                    if let Some(m) = r {
+                        self.slots[d] = Some(Slot::Map(m));
+                    }
+                    meta
+                };
+                let (len, found) = match self.slots[d].as_ref() {
+                    Some(Slot::Map(m)) => {
+                        let _q = Quiet::new();
+                        (m.len(), (1..=n).filter(|&k| m.get(&K::probe(k)).map_or(false, |v| v.v() == if K::NAME == "zst" { 0 } else { k % 10 })).count())
+                    }
+                    Some(Slot::Set(m)) => {
+                        let _q = Quiet::new();
+                        (m.len(), (1..=n).filter(|&k| m.contains(&K::probe(k))).count())
+                    }
+                    None => (0, 0),
+                };
+                Some(self.finish(op, &meta, json!({"t":"sbig","len":len,"found":found}), vec![("nn", json!(n))]))
+            }
             "Serde" => {
                 // serialise slot s (token stream), deserialise the tokens into slot d;
                 // "inplace": 1 uses HashSet::deserialize_in_place on the existing slot d
